@@ -91,7 +91,7 @@ def check_point(res, dist, params):
         v = sut(f"{dist}{tuple(params)}({k})", p, k)
         v = float(v)
         if not (v >= 0.0) or math.isnan(v):
-            res.violate("negative-or-nan-value", k=k, value=v, **ctx)
+            res.violate("negative-or-nan-value", k=k, value=v, ctx=ctx)
         return v
 
     if dist == "exponential":
@@ -104,14 +104,14 @@ def check_point(res, dist, params):
             e = exact(k)
             res.count("pointwise_decimal_checks")
             if abs(D(lib[k]) - e) > D(tol) * e + D("1e-300"):
-                res.violate("value-differs-from-exact-pmf", k=k, got=lib[k], exact=float(e), tol=tol, **ctx)
+                res.violate("value-differs-from-exact-pmf", k=k, got=lib[k], exact=float(e), tol=tol, ctx=ctx)
                 return
         K = 199
         s = math.fsum(lib[k] for k in range(0, K + 1))
         tail = float((-a * (K + 1)).exp())
         res.count("normalisation_checks")
         if abs(s + tail - 1.0) > 1e-10:
-            res.violate("does-not-sum-to-one", partial=s, exact_tail=tail, **ctx)
+            res.violate("does-not-sum-to-one", partial=s, exact_tail=tail, ctx=ctx)
         return
     if dist == "poisson":
         m = D(params[0])
@@ -122,13 +122,13 @@ def check_point(res, dist, params):
             e = (-m).exp() * m ** k / D(math.factorial(k))
             res.count("pointwise_decimal_checks")
             if abs(D(lib[k]) - e) > D(tol) * e + D("1e-300"):
-                res.violate("value-differs-from-exact-pmf", k=k, got=lib[k], exact=float(e), tol=tol, **ctx)
+                res.violate("value-differs-from-exact-pmf", k=k, got=lib[k], exact=float(e), tol=tol, ctx=ctx)
                 return
         s = math.fsum(lib.values())
         tail = 1 - sum((-m).exp() * m ** k / D(math.factorial(k)) for k in ks)
         res.count("normalisation_checks")
         if abs(s + float(tail) - 1.0) > 1e-10:
-            res.violate("does-not-sum-to-one", partial=s, exact_tail=float(tail), **ctx)
+            res.violate("does-not-sum-to-one", partial=s, exact_tail=float(tail), ctx=ctx)
         return
     if dist == "power_law":
         al = params[0]
@@ -147,7 +147,7 @@ def check_point(res, dist, params):
             v = val(k)
             res.count("pointwise_decimal_checks")
             if abs(D(v) - e) > D(tol) * e:
-                res.violate("value-differs-from-exact-pmf", k=k, got=v, exact=float(e), tol=tol, **ctx)
+                res.violate("value-differs-from-exact-pmf", k=k, got=v, exact=float(e), tol=tol, ctx=ctx)
                 return
         Zf = float(Z)
         vals = []
@@ -157,13 +157,13 @@ def check_point(res, dist, params):
             e = k ** (-al) / Zf
             res.count("pointwise_float_checks")
             if abs(v - e) > (tol + 1e-9) * e:
-                res.violate("value-differs-from-exact-pmf", k=k, got=v, exact=e, tol=tol, **ctx)
+                res.violate("value-differs-from-exact-pmf", k=k, got=v, exact=e, tol=tol, ctx=ctx)
                 return
         s = math.fsum(vals)
         tail = float(powersum_tail_from(al, KMAX_POWER + 1) / Z)
         res.count("normalisation_checks")
         if abs(s + tail - 1.0) > tol + 1e-9:
-            res.violate("does-not-sum-to-one", partial=s, exact_tail=tail, tol=tol, **ctx)
+            res.violate("does-not-sum-to-one", partial=s, exact_tail=tail, tol=tol, ctx=ctx)
         res.counters["max_tol_seen_e9"] = max(res.counters.get("max_tol_seen_e9", 0), int(tol * 1e9))
         return
     if dist == "scale_free_cut_off":
@@ -180,13 +180,13 @@ def check_point(res, dist, params):
             e = t / L
             res.count("pointwise_decimal_checks")
             if abs(D(v) - e) > D(tol + 1e-11) * e + D("1e-300"):
-                res.violate("value-differs-from-exact-pmf", k=k, got=v, exact=float(e), tol=tol, **ctx)
+                res.violate("value-differs-from-exact-pmf", k=k, got=v, exact=float(e), tol=tol, ctx=ctx)
                 return
         s = math.fsum(vals)
         tail = float(sum(t for _, t in terms[K:]) / L)
         res.count("normalisation_checks")
         if abs(s + tail - 1.0) > tol + 1e-9:
-            res.violate("does-not-sum-to-one", partial=s, exact_tail=tail, tol=tol, **ctx)
+            res.violate("does-not-sum-to-one", partial=s, exact_tail=tail, tol=tol, ctx=ctx)
         return
     raise ValueError(dist)
 
